@@ -20,7 +20,7 @@ pub fn def() -> CheckDef {
 fn meta(_ctx: &Ctx) -> Meta {
     Meta {
         level: "exploration",
-        rule: "seeded builder configurations biased to what makes encoders accept partial buffers (1-8 MiB incompressible and compressible files, many files, every compressor and level), then sign / clear / re-sign: in the written bytes of every emitted package the signature header's SHA-256 (and SHA-1/MD5 when present) is recomputed over the serialised header located by the independent decoder, the payload digest over the compressed payload, the alternate payload digest over the archive obtained by calling the codec crates directly, and every file digest over the configured content. A compressor x level ladder (every level each encoder accepts) with empty files and a path given twice in different spellings is built first; file digests are also compared with the SHA-256 of the content found in the independently decoded archive. distinct_nontrivial = distinct emitted packages whose digests were all recomputed".into(),
+        rule: "seeded builder configurations biased to what makes encoders accept partial buffers (1-8 MiB incompressible and compressible files, many files, every compressor and level), then sign / clear / re-sign: in the written bytes of every emitted package the signature header's SHA-256 (and SHA-1/MD5 when present) is recomputed over the serialised header located by the independent decoder, the payload digest over the compressed payload, the alternate payload digest over the archive obtained by calling the codec crates directly, and every file digest over the configured content. A compressor x level ladder (every level each encoder accepts) with empty files and a path given twice in different spellings is built first; file digests are also compared with the SHA-256 of the content found in the independently decoded archive. distinct_nontrivial = distinct emitted packages whose digests were all recomputed One staging path: a single source path given to with_file() for 2-5 destinations of one builder and rewritten (same length or growing, mtime pinned or moving, third content equal to the first; sizes 0/1/32/4096/70000) before every call - recorded digest against the archived content (counter staging_path.judged)".into(),
         assumptions: vec!["sha2/sha1/md-5 crates; flate2/zstd/liblzma/bzip2 decoders".into()],
         floor_distinct: 20,
     }
